@@ -1069,6 +1069,77 @@ func jsonPath(msg json.RawMessage, p string) json.Marshaler {
 	}
 }
 
+// typedJsonPath works like jsonPath, except that it uses the declared type
+// of the value to tell a typed map, where the path applies to each of the
+// values, from a struct, where the first element of the path is a member.
+func typedJsonPath(msg json.RawMessage, p string,
+	t syntax.Type, lookup *syntax.TypeLookup) json.Marshaler {
+	if p == "" {
+		return msg
+	}
+	msg = json.RawMessage(bytes.TrimSpace(msg))
+	if len(msg) == 0 || bytes.Equal(msg, nullBytes) {
+		return msg
+	}
+	switch t := t.(type) {
+	case *syntax.ArrayType:
+		var arr []json.RawMessage
+		if json.Unmarshal(msg, &arr) != nil {
+			return msg
+		}
+		elem := t.Elem
+		if t.Dim > 1 {
+			elem = &syntax.ArrayType{Elem: t.Elem, Dim: t.Dim - 1}
+		}
+		result := make(marshallerArray, len(arr))
+		for i, v := range arr {
+			result[i] = typedJsonPath(v, p, elem, lookup)
+		}
+		return result
+	case *syntax.TypedMapType:
+		var m LazyArgumentMap
+		if json.Unmarshal(msg, &m) != nil {
+			return msg
+		}
+		result := make(MarshalerMap, len(m))
+		for k, v := range m {
+			result[k] = typedJsonPath(v, p, t.Elem, lookup)
+		}
+		return result
+	case *syntax.StructType:
+		var m LazyArgumentMap
+		if json.Unmarshal(msg, &m) != nil {
+			return msg
+		}
+		key, rest := p, ""
+		if i := strings.IndexRune(p, '.'); i >= 0 {
+			key, rest = p[:i], p[i+1:]
+		}
+		if member := t.Table[key]; member != nil {
+			if mt := lookup.Get(member.Tname); mt != nil {
+				return typedJsonPath(m[key], rest, mt, lookup)
+			}
+		}
+		return jsonPath(m[key], rest)
+	default:
+		return jsonPath(msg, p)
+	}
+}
+
+// outputPath returns the part of the stage outputs which a (possibly dotted)
+// output id refers to.
+func outputPath(outs LazyArgumentMap, p string,
+	params *syntax.OutParams, lookup *syntax.TypeLookup) json.Marshaler {
+	if i := strings.IndexRune(p, '.'); i > 0 && params != nil && lookup != nil {
+		if param := params.Table[p[:i]]; param != nil {
+			if t := lookup.Get(param.Tname); t != nil {
+				return typedJsonPath(outs[p[:i]], p[i+1:], t, lookup)
+			}
+		}
+	}
+	return outs.jsonPath(p)
+}
+
 func (args LazyArgumentMap) filter(t syntax.Type,
 	lookup *syntax.TypeLookup) (json.Marshaler, error) {
 	if !t.CanFilter() {
